@@ -317,6 +317,26 @@ def check(run):
                     and isinstance(tail, K) and tail.v == 5 and isinstance(rr, K) and rr.v == 0
                 run.check(good, 'D5', f'Builder.{meth_s}/Slice.{meth_l}' if not good else f'{meth_s}[{"none" if val is None else "cell"}]',
                           f'{"absent" if val is None else "present"}: presence bit {segs[0].val[0] if segs and segs[0].kind == "k" else "?"}, refs {nrefs}, load -> {vrepr(l)[:20]}', wb)
+    # the same pairs on a partly consumed slice (bit cursor and reference cursor both advanced): peek must still equal read
+    for nskip in (1, 2, 3):
+        it = Interp(prog)
+        kids = [cm.leaf(it, 3 + i, f'k{i}') for i in range(4)]
+        with guard(run, 'D5', 'Slice.preload_maybe_ref/preload_ref[advanced cursor]', ws, 'peek after consumed references'):
+            b = builder(it)
+            call(it, b, 'store_uint', K(9), K(7))
+            for k in kids[:nskip]:
+                call(it, b, 'store_ref', k)
+            call(it, b, 'store_maybe_ref', kids[3])
+            s = to_slice(it, b)
+            call(it, s, 'load_uint', K(7))
+            for _ in range(nskip):
+                call(it, s, 'load_ref')
+            p = call(it, s, 'preload_maybe_ref')
+            pr = call(it, s, 'preload_ref')
+            l = call(it, s, 'load_maybe_ref')
+            good = p is kids[3] and l is kids[3] and pr is kids[3] and rem(it, s) == 0
+            run.check(good, 'D5', 'Slice.preload_maybe_ref/preload_ref[advanced cursor]' if not good else f'peek-after-{nskip}-refs',
+                      f'after {nskip} consumed reference(s): preload_maybe_ref -> {vrepr(p)[:20]}, preload_ref -> {vrepr(pr)[:20]}, load_maybe_ref -> {vrepr(l)[:20]} (all must be the stored cell)', wb)
     # load_dict on an absent dictionary consumes one bit and no reference
     it = Interp(prog)
     b = builder(it)
